@@ -1,12 +1,9 @@
 //! pdsverif — property-based verification harness for pdatastructs.rs (see /verif/DESIGN.md).
-mod engine;
-mod props;
-mod support;
+use pdsverif::engine::{self, Ctx, Tier, Verdict};
+use pdsverif::{props, support};
 
 #[global_allocator]
 static GLOBAL: support::alloc::Counting = support::alloc::Counting;
-
-use engine::{Ctx, Tier, Verdict};
 
 fn usage() -> ! {
     eprintln!("usage: pdsverif run <ID> <quick|thorough> | replay <ID> <file> | list");
@@ -33,6 +30,25 @@ fn main() {
             for p in props::ALL {
                 println!("{}", p);
             }
+        }
+        "fuzz-seeds" => {
+            // (re)write the committed golden inputs of the libFuzzer targets
+            let dir = std::path::PathBuf::from(args.get(2).cloned().unwrap_or_else(|| "fuzz/seeds".into()));
+            let d = dir.join("hll_json");
+            std::fs::create_dir_all(&d).unwrap();
+            for (i, g) in props::c20::goldens().iter().enumerate() {
+                std::fs::write(d.join(format!("golden{}.json", i)), g).unwrap();
+            }
+            let d = dir.join("filter_ops");
+            std::fs::create_dir_all(&d).unwrap();
+            let mut g = engine::stat::SplitMix64(12345);
+            for i in 0..24 {
+                let len = 64 + (g.below(400) as usize);
+                let mut b: Vec<u8> = (0..len).map(|_| g.next() as u8).collect();
+                b[0] = (i % 3) as u8;
+                std::fs::write(d.join(format!("seed{:02}.bin", i)), b).unwrap();
+            }
+            println!("seeds written to {:?}", dir);
         }
         "run" => {
             if args.len() < 4 {
